@@ -453,6 +453,17 @@ Proof.
   assert (s (pred r) <= s p) by (apply Hmono; lia). lra.
 Qed.
 
+(** the same for the documented default tolerance max(m,n)*eps^(7/8) of the entry points without an rcond argument *)
+Theorem svd_rank_default_counts_nonzero (m n k r : nat) (s : Rvec) (sig : R) :
+  desc_check ROps k s = true -> (0 < r <= k)%nat ->
+  (forall p, (p < r)%nat -> 0 < s p) -> (forall p, (r <= p < k)%nat -> s p = 0) ->
+  0 <= sig -> INR (Nat.max m n) * sig * s O < s (pred r) ->
+  svd_rank_default ROps sig m n k s = r.
+Proof.
+  intros Hd Hr Hpos Hzero Hsig Hthr. unfold svd_rank_default, default_rcond. cbn [ROps nmul nofZ].
+  rewrite <- INR_IZR_INZ. apply svd_rank_counts_nonzero'; auto. apply Rmult_le_pos; auto. apply pos_INR.
+Qed.
+
 (** *** a vector orthogonal to the null-space rows r..n-1 of an exact SVD certificate of rank r lies in the range of A^T;
         with the normal equations it is therefore THE minimum-norm least-squares solution (certificate for FactorQTZ::solve) *)
 Theorem nullorth_certificate_min_norm (m n k r : nat) (A U Vt : Rmat) (s b x : Rvec) :
